@@ -1,6 +1,7 @@
 (* Spec/TxWireSpec.v — the Bitcoin transaction wire format (legacy, and BIP144 extended), written from the
    protocol description and NOT from pycoin: nested `concat (map ..)` over the data, a positional definition
-   of little-endian integers, CompactSize by thresholds.  Only the record types come from Model/TxWire.v.
+   of little-endian integers, CompactSize by thresholds.  Only the record types come from Model/TxWire.v; the strict decoder at the end
+   uses the byte-stream primitives of Base/Varint.v (read, parse_varint, varint_canonical).
 
      legacy   : version(4 LE) | vec<txin> | vec<txout> | locktime(4 LE)
      extended : version(4 LE) | 00 | 01 | vec<txin> | vec<txout> | witness stack of every input | locktime(4 LE)
@@ -9,7 +10,7 @@
      vec<T>   : CompactSize(count) | T...          script / witness item : CompactSize(len) | bytes
    BIP144: the extended form is used iff at least one input has a non-empty witness stack;
    txid = H(legacy form), wtxid = H(wire form). *)
-From PV Require Import Base.Bytes Model.TxWire.
+From PV Require Import Base.Bytes Base.Outcome Base.Varint Model.TxWire.
 Local Open Scope Z_scope.
 
 (* k-th byte (little-endian position) of a non-negative integer *)
@@ -78,3 +79,64 @@ Definition ser_spendable (sp : spendable) : bytes :=
   le_bytes 8 (sp_value sp) ++ ser_bytes (sp_script sp) ++ sp_tx_hash sp ++ le_bytes 4 (sp_index sp)
   ++ compact_size (sp_block_index_available sp) ++ [if sp_does_seem_spent sp =? 0 then x00 else x01]
   ++ compact_size (sp_block_index_spent sp).
+
+(* ---- a strict (canonical-form) decoder of the wire format, written from BIP144 and independent of pycoin's
+   parser: minimal CompactSizes only, every declared byte present, marker 00 must be followed by flag 01,
+   the extended form must carry at least one non-empty witness stack.  Used to state stream-after-parse
+   for an intrinsic notion of "canonical bytes". *)
+Definition obind {A B} (m : option A) (f : A -> option B) : option B :=
+  match m with Some a => f a | None => None end.
+
+Definition d_fixed (w : nat) (s : bytes) : option (bytes * bytes) :=
+  if (w <=? length s)%nat then Some (firstn w s, skipn w s) else None.
+Definition d_uint (w : nat) (s : bytes) : option (Z * bytes) :=
+  obind (d_fixed w s) (fun '(h, r) => Some (Z.of_N (le_decode h), r)).
+Definition d_compact (s : bytes) : option (N * bytes) :=
+  if varint_canonical s then match parse_varint s with Ret x => Some x | _ => None end else None.
+Definition d_bytes (s : bytes) : option (bytes * bytes) :=
+  obind (d_compact s) (fun '(n, r) =>
+    if ((n <=? N.of_nat (length r)) && (n <? 2 ^ 63))%N
+    then Some (firstn (N.to_nat n) r, skipn (N.to_nat n) r) else None).
+Fixpoint d_seq {A} (d : bytes -> option (A * bytes)) (n : nat) (s : bytes) : option (list A * bytes) :=
+  match n with
+  | O => Some ([], s)
+  | S k => obind (d s) (fun '(x, r) => obind (d_seq d k r) (fun '(xs, r') => Some (x :: xs, r')))
+  end.
+(* a vector never has more elements than there are bytes left (every element takes at least one) *)
+Definition d_vec {A} (d : bytes -> option (A * bytes)) (s : bytes) : option (list A * bytes) :=
+  obind (d_compact s) (fun '(n, r) => if (n <=? N.of_nat (length r))%N then d_seq d (N.to_nat n) r else None).
+
+Definition d_txin (s : bytes) : option (txin * bytes) :=
+  obind (d_fixed 32 s) (fun '(h, r1) => obind (d_uint 4 r1) (fun '(i, r2) => obind (d_bytes r2) (fun '(sc, r3) =>
+  obind (d_uint 4 r3) (fun '(q, r4) => Some (mk_txin h i sc q [], r4))))).
+Definition d_txout (s : bytes) : option (txout * bytes) :=
+  obind (d_uint 8 s) (fun '(v, r1) => obind (d_bytes r1) (fun '(sc, r2) => Some (mk_txout v sc, r2))).
+Fixpoint d_witnesses (ins : list txin) (s : bytes) : option (list txin * bytes) :=
+  match ins with
+  | [] => Some ([], s)
+  | i :: rest =>
+    obind (d_vec d_bytes s) (fun '(w, r) => obind (d_witnesses rest r) (fun '(is', r') =>
+      Some (mk_txin (ti_hash i) (ti_index i) (ti_script i) (ti_sequence i) w :: is', r')))
+  end.
+Definition some_witness (ins : list txin) : bool :=
+  existsb (fun i => match ti_witness i with [] => false | _ => true end) ins.
+
+Definition decode_strict (b : bytes) : option (tx * bytes) :=
+  obind (d_uint 4 b) (fun '(ver, r) =>
+    match r with
+    | [] => None
+    | b0 :: r0 =>
+      if (b2n b0 =? 0)%N then
+        match r0 with
+        | [] => None
+        | b1 :: r1 =>
+          if (b2n b1 =? 1)%N then
+            obind (d_vec d_txin r1) (fun '(ins, r2) => obind (d_vec d_txout r2) (fun '(outs, r3) =>
+            obind (d_witnesses ins r3) (fun '(ins', r4) => obind (d_uint 4 r4) (fun '(lock, r5) =>
+            if some_witness ins' then Some (mk_tx ver ins' outs lock, r5) else None))))
+          else None
+        end
+      else
+        obind (d_vec d_txin r) (fun '(ins, r2) => obind (d_vec d_txout r2) (fun '(outs, r3) =>
+        obind (d_uint 4 r3) (fun '(lock, r4) => Some (mk_tx ver ins outs lock, r4))))
+    end).
